@@ -156,6 +156,11 @@ def lattice3_unit(u) -> Stats:
         lo[7] = up[7] = grand
         check_vector(st, n, lo, up, grand, f"lattice#{m}", True)
         st.states += 1
+        if m % 8 == 3:          # the same shape with a huge common offset per player, and in tiny units
+            off = [A.BIG * sum((1, -1, 2)[i] for i in range(3) if s >> i & 1) for s in range(8)]
+            check_vector(st, n, [a + o for a, o in zip(lo, off)], [a + o for a, o in zip(up, off)], grand + off[7], f"lattice#{m}+big", False)
+            check_vector(st, n, [a * A.TINY for a in lo], [a * A.TINY for a in up], grand * A.TINY, f"lattice#{m}*tiny", False)
+            st.states += 2
         if st.nviol >= 3:
             break
         if m == 1234:
